@@ -139,7 +139,7 @@ static vnode *value_tree(vrng *r)
     g.big_permille = 60; g.huge_permille = 0;
     if (shape >= 90) { g.max_nodes = 30 + (int)vrn(r, 120); g.big_permille = 500; }       /* straddles the 1000-byte first-try buffer */
     if (shape >= 98) g.huge_permille = 60;
-    if (vrn(r, 40) == 0) return vt_ladder(r, K_OBJ, 1 + (int)vrn(r, 10), 1 + (int)vrn(r, 40));
+    if (vrn(r, 40) == 0) { int lo = 1 + (int)vrn(r, 10); int la = 1 + (int)vrn(r, 40); return vt_ladder(r, K_OBJ, lo, la); }
     return vt_gen(r, &g);
 }
 
@@ -228,11 +228,56 @@ static void case_bytes(vrng *r, uint64_t global)
     vg_free(exact, d.n); vb_free(&d);
 }
 
+/* ---- C18: transcript of the C++ wrapper's observable results, one digest per scenario ---- */
+static void t_u64(vbuf *t, uint64_t v) { uint8_t b[8]; for (int i = 0; i < 8; i++) b[i] = (uint8_t)(v >> (8 * i)); vb_put(t, b, 8); }
+static void xs_case(vrng *r, vbuf *t)
+{
+    /* (a) a value tree: serialize bytes, toStr text */
+    vnode *tree = value_tree(r);
+    Binson x = build_obj(tree, r);
+    std::vector<uint8_t> s = x.serialize();
+    t_u64(t, s.size()); if (!s.empty()) vb_put(t, s.data(), s.size());
+#ifdef BINSON_PARSER_WITH_PRINT
+    if (s.size() < 3000) { std::string txt = x.toStr(); t_u64(t, txt.size()); vb_put(t, txt.data(), txt.size()); }
+#endif
+    /* (b) a byte string through the three overloads */
+    vbuf d; memset(&d, 0, sizeof d);
+    uint32_t k = vrn(r, 100);
+    if (k < 10) vm_soup(r, &d, K_OBJ, 1 + (int)vrn(r, 10));
+    else { vnode *t2 = value_tree(r); vt_encode(t2, &d); if (k >= 50) { int nm = 1 + (int)vrn(r, 2); for (int i = 0; i < nm; i++) vm_mutate(r, &d); } }
+    std::vector<uint8_t> vec; if (d.n) vec.assign(d.p, d.p + d.n);
+    for (int which = 0; which < 3; which++) {
+        Binson y; std::string msg;
+        int out = run_overload(which, d.p, d.n, &vec, y, msg);
+        vb_u8(t, (uint8_t)out);
+        if (out == OUT_RETURNED) { std::vector<uint8_t> s2 = y.serialize(); t_u64(t, s2.size()); if (!s2.empty()) vb_put(t, s2.data(), s2.size()); }
+        else { vb_put(t, msg.data(), msg.size()); }
+    }
+    vb_free(&d);
+}
+
 int main(int argc, char **argv)
 {
     vw_init(argc, argv);
     vcorpus_load(VA.repo);
     vrng r;
+    if (!strcmp(VA.mode, "c18x")) {
+        bool dump = strstr(VA.opt, "dump") != NULL;
+        char path[1024]; snprintf(path, sizeof path, "%s/xs-%llu.bin", VA.outdir, (unsigned long long)VA.wid);
+        FILE *f = dump ? NULL : fopen(path, VA.start ? "ab" : "wb");
+        vbuf t; memset(&t, 0, sizeof t);
+        for (uint64_t k = VA.start; k < VA.start + VA.cases; k++) {
+            vw_case(k); vr_seed(&r, VA.seed, VA.wid, k); va_reset(); vb_reset(&t);
+            xs_case(&r, &t);
+            uint64_t h = vh_hash(t.p, t.n, k);
+            if (f) fwrite(&h, 8, 1, f);
+            if (dump) { vbuf o; memset(&o, 0, sizeof o); vb_hex(&o, t.p, t.n, 1 << 20); fprintf(stderr, "TRANSCRIPT case=%llu bytes=%zu %s\n", (unsigned long long)k, t.n, vb_cstr(&o)); vb_free(&o); }
+            vw_nontrivial(h); vw_count("transcript_bytes", t.n); vw_count("cpp_scenarios", 1);
+            if (vw_want_sample()) { char sm[200]; snprintf(sm, sizeof sm, "C++ scenario wid=%llu case=%llu: serialize()/toStr() of a value tree + 3 deserialize overloads on a byte string -> transcript of %zu bytes, digest %016llx", (unsigned long long)VA.wid, (unsigned long long)k, t.n, (unsigned long long)h); vw_sample(sm); }
+        }
+        if (f) fclose(f);
+        return vw_finish();
+    }
     bool trees = !strcmp(VA.mode, "c15t");
     for (uint64_t k = VA.start; k < VA.start + VA.cases && !vw_stop(); k++) {
         vw_case(k);
